@@ -15,6 +15,19 @@ pub fn is_tag(node: &Node, tag_name: &str) -> bool {
         }
 }
 
+/// Returns the text content of an element: all of its text and CDATA children concatenated.
+/// Comments, processing instructions and child elements (e.g. from E57 extensions) are not part
+/// of the content. Returns `None` if the element has no text at all.
+pub fn text_content(node: &Node) -> Option<String> {
+    let mut content: Option<String> = None;
+    for child in node.children().filter(|n| n.is_text()) {
+        content
+            .get_or_insert_with(String::new)
+            .push_str(child.text().unwrap_or(""));
+    }
+    content
+}
+
 pub fn opt_string(parent_node: &Node, tag_name: &str) -> Result<Option<String>> {
     if let Some(tag) = parent_node.children().find(|n| is_tag(n, tag_name)) {
         let expected_type = "String";
@@ -27,8 +40,7 @@ pub fn opt_string(parent_node: &Node, tag_name: &str) -> Result<Option<String>> 
         } else {
             Error::invalid(format!("XML tag '{tag_name}' has no 'type' attribute"))?
         }
-        let text = tag.text().unwrap_or("");
-        Ok(Some(text.to_string()))
+        Ok(Some(text_content(&tag).unwrap_or_default()))
     } else {
         Ok(None)
     }
@@ -54,7 +66,7 @@ fn opt_num<T: FromStr + Sync + Send>(
         } else {
             Error::invalid(format!("XML tag '{tag_name}' has no 'type' attribute"))?
         }
-        let text = tag.text().unwrap_or("0");
+        let text = text_content(&tag).unwrap_or_else(|| "0".to_string());
         if let Ok(parsed) = text.parse::<T>() {
             Ok(Some(parsed))
         } else {
